@@ -51,11 +51,12 @@ KNOWN = [
          observed='`let x = 0::26;` (start, "::", step, end glued) -- does not parse; `a:b:c` -> `a::bc`, '
                   '`(1):(2):(3)` -> `(1)::(2)(3)`.  integration_tests/list_test.ucg is destroyed by `ucg fmt -w`',
          clause='(1) output parses to the same program'),
-    dict(tag='null_field_name',
+    dict(tag='keyword_prefixed_field_name',
          input='let x = {"NULL" = 1};',
-         observed='`let x = {\\n    NULL = 1,\\n};` -- the bare NULL is the empty-value keyword, not a field name: the '
-                  'output does not parse ("Expected (}) but got (NULL)").  Same in a copy `t{"NULL" = 1}`, a select '
-                  'tuple and module parameters',
+         observed='`let x = {\\n    NULL = 1,\\n};` -- the quotes are dropped although the bare spelling is not a field name: the tokenizer '
+                  'reads NULL / true / false as keywords even as a prefix, so the output does not parse ("Expected (}) but got (NULL)").  '
+                  'Same for "NULLx", "NULL_", "trueish" (-> `trueish = 1`: "Expected (=) but got (ish)"), "falsey"; in tuples, copies '
+                  '`t{"NULL" = 1}`, select tuples and module parameters.  ("true" / "false" alone are fine: `true = 1` is accepted.)',
          clause='(1) output parses to the same program'),
     dict(tag='blank_comment',
          input='// a\n//\n// b\nlet x = 1;',
@@ -169,14 +170,14 @@ def mask_known(src):
             if new != parts:
                 applied.append(tag)
                 parts = new
-    if known('null_field_name'):
-        # a string "NULL" directly followed by `=` (not `==`) or `::` is a field name
+    if known('keyword_prefixed_field_name'):
+        # a string "NULL.." / "true<letters>" / "false<letters>" directly followed by `=` (not `==`) or `::` is a field name
         new = []
         for idx, (k, t) in enumerate(parts):
             nxt = parts[idx + 1][1].lstrip() if idx + 1 < len(parts) else ''
-            if k == 'str' and t == '"NULL"' and ((nxt.startswith('=') and not nxt.startswith('==')) or nxt.startswith('::')):
-                new.append((k, '"NULL_"'))
-                applied.append('null_field_name')
+            if k == 'str' and re.match(r'"(NULL\w*|true[A-Za-z_]\w*|false[A-Za-z_]\w*)"$', t) and ((nxt.startswith('=') and not nxt.startswith('==')) or nxt.startswith('::')):
+                new.append((k, '"k_' + t[1:]))
+                applied.append('keyword_prefixed_field_name')
             else:
                 new.append((k, t))
         parts = new
@@ -388,8 +389,10 @@ BARE_FIELDS = ['a', 'b', 'foo_bar', 'kebab-name', 'x1', 'ok', 'desc', 'let', 'in
                'reduce', 'self', 'env', 'mod', 'import', 'include', 'fail', 'assert', 'out', 'constraint', 'convert', 'TRACE', 'as', 'true', 'false']
 QUOTED_FIELDS = ['"a"', '"plain_name"', '"a b"', '""', '"é"', '"日本"', '"1x"', '"1"', '"x.y"', '"a\\"b"', '"a\\\\b"', '"a\\nb"', '"x-y"', '"_x"', '"_"',
                  '"x_"', '"let"', '"select"', '"true"', '"false"', '"in"', '"is"', '"not"', '"func"', '"module"', '"self"', '"env"', '"mod"', '"null"',
-                 '"Null"', '"a=b"', '"a,b"', '"{"', '"// c"', '"@"', '" lead"', '"trail "', '"ALLCAPS"', '"x:y"']
-QUOTED_FIELDS_NULL = ['"NULL"']
+                 '"Null"', '"a=b"', '"a,b"', '"{"', '"// c"', '"@"', '" lead"', '"trail "', '"ALLCAPS"', '"x:y"',
+                 '"a\\tb"', '"a\\\\"', '"A1"', '"a1_"', '"-a"', '"a-"', '"a--b"', '"0"', '"a\\rb"', '"a//b"', '"//"', '"xNULL"', '"nullable"', '"True"', '"true1"', '"\\""',
+                 '"\\\\"', '"a;"', '"letx"', '"inx"', '"notx"', '"TRACEx"']
+QUOTED_FIELDS_KW = ['"NULL"', '"NULLx"', '"NULL_"', '"trueish"', '"falsey"']      # KNOWN keyword_prefixed_field_name
 BINOPS = ['+', '-', '*', '/', '%%', '==', '!=', '>', '<', '>=', '<=', '&&', '||', 'in', 'is', '~', '!~']
 CASTS = ['int', 'float', 'str', 'bool']
 CONVERTERS = ['json', 'yaml', 'toml', 'env', 'flags', 'exec', 'xml']
@@ -417,7 +420,7 @@ class Gen(object):
         r = self.r.random()
         if r < 0.45:
             return self.r.choice(BARE_FIELDS)
-        pool = QUOTED_FIELDS if known('null_field_name') else QUOTED_FIELDS + QUOTED_FIELDS_NULL * 4
+        pool = QUOTED_FIELDS if known('keyword_prefixed_field_name') else QUOTED_FIELDS + QUOTED_FIELDS_KW
         return self.r.choice(pool)
 
     def selector(self, d):
@@ -782,7 +785,7 @@ def standin_fmt_literal_forms(tier, seed):
         lits += FLOATS_ZERO
     if not known('range_step'):
         lits += ['1:2:10', '0:1:0', 'a:b:c', '(1):(2):(3)', 'x.lo:2:x.hi']
-    fields = BARE_FIELDS + QUOTED_FIELDS + ([] if known('null_field_name') else QUOTED_FIELDS_NULL)
+    fields = BARE_FIELDS + QUOTED_FIELDS + ([] if known('keyword_prefixed_field_name') else QUOTED_FIELDS_KW)
     ctxs = CONTEXTS if tier == 'thorough' else CONTEXTS[:7]
     fctxs = FIELD_CONTEXTS if tier == 'thorough' else FIELD_CONTEXTS[:4]
     cases = []
@@ -810,7 +813,7 @@ def standin_fmt_literal_forms(tier, seed):
 # ---------------------------------------------------------------------------------------------------------------------
 def standin_fmt_generated(tier, seed):
     rnd = random.Random(seed)
-    n = 450 if tier == 'thorough' else 45
+    n = 1200 if tier == 'thorough' else 45
     cases = []
     for i in range(n):
         sub = random.Random(rnd.getrandbits(48))
